@@ -3,6 +3,7 @@ package main
 // one import per property package; each registers itself in init().
 import (
 	_ "verif/c08"
+	_ "verif/c09"
 	_ "verif/c14"
 	_ "verif/c15"
 )
